@@ -290,8 +290,10 @@ impl<'a> GenCtx<'a> {
                 let mut id: i32 = 0;
                 for _ in 0..n {
                     // mostly ascending small deltas, sometimes jumps / negatives / repeats
-                    id = match self.r.below(10) {
+                    id = match self.r.below(12) {
                         0 => self.r.range(0, 65535) as i32 - 32768,
+                        // just below the top of the id range, so that the following ids run into it
+                        10 => 32767 - self.r.below(17) as i32,
                         1 => id + self.r.range(15, 400) as i32,
                         2 => id - self.r.range(0, 3) as i32,
                         _ => id + self.r.range(1, 15) as i32,
